@@ -10,6 +10,7 @@ import (
 
 	"github.com/tonkeeper/tongo/boc"
 	"github.com/tonkeeper/tongo/tlb"
+	"github.com/tonkeeper/tongo/wallet"
 
 	"verifharness/prng"
 	"verifharness/sx"
@@ -24,6 +25,7 @@ var (
 	accChangeT   = reflect.TypeOf(tlb.AccStatusChange(""))
 	skipReasonT  = reflect.TypeOf(tlb.ComputeSkipReason(""))
 	cellSliceT   = reflect.TypeOf(tlb.VmCellSlice{})
+	textCommentT = reflect.TypeOf(wallet.TextComment(""))
 )
 
 func enum(t reflect.Type, alts ...Alt) *Desc { return &Desc{K: KEnum, T: t, Alts: alts} }
@@ -50,6 +52,20 @@ func (c *ctx) exportedStruct(t reflect.Type) *Desc {
 
 func (c *ctx) custom(t reflect.Type) *Desc {
 	switch t {
+	case snakeT:
+		return &Desc{K: KSnake, T: t, Snake: "bits"}
+	case bytesT:
+		return &Desc{K: KSnake, T: t, Snake: "bytes"}
+	case textT:
+		return &Desc{K: KSnake, T: t, Snake: "text"}
+	case fixedTextT:
+		return &Desc{K: KLenBytes, W: 8, T: t}
+	case signedCoinT:
+		// sign bit, then the absolute value as VarUInteger 16
+		return &Desc{K: KStruct, T: t, Signed: true, Sub: []*Desc{{K: KBool, T: reflect.TypeOf(false)}, {K: KVarUInt, W: 16, T: reflect.TypeOf(tlb.VarUInteger16{})}}}
+	case textCommentT:
+		// op 0 (32 bits), then the text as snake data
+		return &Desc{K: KStruct, T: t, Sub: []*Desc{{K: KMagic, W: 32, Val: 0, T: magicT}, {K: KSnake, T: textT, Snake: "text"}}}
 	case cellSliceT:
 		if cellSliceFieldsOK() {
 			return &Desc{K: KCellSlice, T: t}
